@@ -13,7 +13,7 @@ TRUSTED = BASE_TRUSTED + [
 ]
 NAMES9 = "400 warm rounds of task_group / parallel_for with simultaneous throwers"
 NAMES = ["task_group", "parallel_for", "parallel_reduce", "parallel_for_each", "parallel_invoke", "parallel_pipeline", "flow graph function_node", "task_arena::execute", "parallel_for nested in task_group", NAMES9,
-         "parallel_for (4 partitioners) / parallel_reduce where the k-th Range splitting constructor or Body copy/split constructor throws (k = 1..6)",
+         "parallel_for (4 partitioners) / parallel_reduce where the k-th Range splitting constructor or Body copy/split constructor throws (k = 1..6; BADVALUE = combinations in which the exception did not reach the caller exactly once, a body was still running, or the Bodies constructed and destroyed do not balance - a destructor ran on a Body that was never constructed)",
          "a body throws after a nested library call that completed normally (72 combinations of outer construct x nested call; BADVALUE = combinations in which the waiting call did not get the exception)"]
 
 
